@@ -13,9 +13,11 @@ boundary) — nothing is missing and nothing follows.
 
 `C01_empty`: Close straight after NewWriter/Reset yields a valid stream of no data (the final empty stored block).
 
-Scope of the theorem: the dynamic compressor (levels 1, 2, default; both windows — `Cfg.window` is a parameter)
-given leaves that meet `Sound`. Decided by the harness oracle only (see evidence): that the Go/assembly leaves
-meet `Sound` at every acceleration level, the Huffman-only compressor, the levels delegated to compress/flate,
+`C01_roundtrip_huff`: the same for the Huffman-only compressor (level -2) under `HSound`.
+
+Scope of the theorems: the dynamic compressor (levels 1, 2, default; both windows — `Cfg.window` is a parameter)
+given leaves that meet `Sound`, and the Huffman-only compressor given a block encoder that meets `HSound`. Decided by the harness oracle only (see evidence): that the Go/assembly leaves
+meet `Sound` / `HSound` at every acceleration level, the levels delegated to compress/flate,
 preset dictionaries (delegated), and the agreement of compress/flate, the reference inflater and fastgo's own
 Reader on the emitted bytes (the `I` and `R` correspondences tie those to the same specification inflater).
 -/
@@ -41,6 +43,17 @@ theorem C01_empty (L : DynLeaves MF Tok) {mode : Mode} (S : Sound L mode) (c : C
   obtain ⟨st, rest, h, _⟩ := closedStream_inflate c3
   exact ⟨st, rest, h⟩
 
+theorem C01_roundtrip_huff {σ : Type} (L : HuffLeaf σ) {mode : Mode} (S : HSound L mode) (max : Nat)
+    (dst : Dst) (hh : dst.Healthy) (hd : dst.got = []) (ops : List Op) (hops : ∀ op ∈ ops, op.keepsOpen)
+    (hok : ∀ r ∈ (hRun L max (HState.init L dst) ops).2, r.err = none) :
+    (hClose L (hRun L max (HState.init L dst) ops).1).2.err = none ∧
+    ∃ st rest, inflate mode [] (hClose L (hRun L max (HState.init L dst) ops).1).1.dst.bytes =
+      .done (dataAfterAll [] ops (hRun L max (HState.init L dst) ops).2).toArray rest st ∧
+      rest.length < 8 ∧ ∀ b ∈ rest, b = false := by
+  have ht := hRun_tracks L S max ops [] (HState.init L dst) ⟨rfl, hinv_init mode L.init dst hh hd⟩ hops hok
+  obtain ⟨c1, _, c3⟩ := hClose_tracks L S _ _ ht
+  exact ⟨c1, closedStream_inflate c3⟩
+
 /-- every accepted Write reports the full length on a healthy destination unless it stopped for lack of
     progress — the data the theorem speaks about is what the caller was told was accepted -/
 theorem C01_data_is_what_was_accepted (D : List UInt8) (data : List UInt8) (r : OpRes) (h : r.n = data.length) :
@@ -62,7 +75,12 @@ example :
     isDoneWith (inflate .strict [] (close fixLeaves toyCfg (WState.init fixLeaves healthy)).1.dst.bytes) [] = true := by
   decide +kernel
 
+example :
+    isDoneWith (inflate .strict [] (hClose fixHuff exHuff.1).1.dst.bytes) (exData.take 37) = true := by
+  decide +kernel
+
 end Fastgo.Writer
 
 #print axioms Fastgo.Writer.C01_roundtrip_dyn
 #print axioms Fastgo.Writer.C01_empty
+#print axioms Fastgo.Writer.C01_roundtrip_huff
